@@ -583,7 +583,7 @@ func ruleGroupHash(c *Ctx, rule string) {
 		elem := callArgs(call)[0]
 		ep := pathOf(elem)
 		base := strings.SplitN(ep, "[", 2)[0]
-		okIter = base == sorted && dominatesInstr(sortCall, call)
+		okIter = base == sorted && (dominatesInstr(sortCall, call) || sortedOnEveryPath(sortCall, call))
 	}
 	c.Ok(rule, "group hash iterates the sorted slice after sorting it", shortPos(c.P, sortCall), okIter, "")
 	// inputs
@@ -988,4 +988,33 @@ func acceptedDecoderGuard(fn *ssa.Function, cond ssa.Value, truth bool) bool {
 		return true
 	}
 	return false
+}
+
+// sortedOnEveryPath: every path to `use` either passes the sort call or crosses an edge on which
+// sort.SliceIsSorted(<same slice>, <same comparator>) returned true.
+func sortedOnEveryPath(sortCall *ssa.Call, use ssa.Instruction) bool {
+	if sortCall.Parent() != use.Parent() {
+		return false
+	}
+	return mustCross(use, func(e edge) bool {
+		if e.to() == sortCall.Block() || e.from == sortCall.Block() {
+			return true
+		}
+		for _, cj := range edgeConjuncts(e) {
+			call, ok := cj.cond.(*ssa.Call)
+			if !ok || !cj.truth || calleeName(call) != "sort.SliceIsSorted" {
+				continue
+			}
+			a, b := call.Common().Args, sortCall.Common().Args
+			if pathOf(stripConv(a[0])) == pathOf(stripConv(b[0])) && sameFuncValue(a[1], b[1]) {
+				return true
+			}
+		}
+		return false
+	})
+}
+
+func sameFuncValue(a, b ssa.Value) bool {
+	fa, fb := funcValuesOf(a), funcValuesOf(b)
+	return len(fa) == 1 && len(fb) == 1 && fa[0] == fb[0]
 }
